@@ -72,6 +72,8 @@ type Conn struct {
 	NWrites   int
 	ReadSizes []int
 	Peer      *Conn
+	// First holds the first bytes (up to 64) this endpoint ever wrote.
+	First []byte
 	// AutoMark declares the end offset of every Write of this endpoint as
 	// an interesting offset for the peer's chunker.
 	AutoMark bool
@@ -243,6 +245,13 @@ func (c *Conn) put(p []byte, at time.Time) {
 		q = c.Out.Tap(c.Out.Total, append([]byte{}, p...))
 	}
 	c.Out.Writes = append(c.Out.Writes, WriteRec{N: len(p), At: at, Off: c.Out.Total})
+	if len(c.First) < 64 {
+		k := 64 - len(c.First)
+		if k > len(p) {
+			k = len(p)
+		}
+		c.First = append(c.First, p[:k]...)
+	}
 	c.Out.Buf = append(c.Out.Buf, q...)
 	c.Out.Total += int64(len(p))
 	if c.AutoMark && len(p) > 0 {
